@@ -2,6 +2,7 @@ import ParryModel.Field
 import ParryModel.C15.Theorems
 import ParryModel.C16.Model
 import ParryModel.C16.Lemmas
+import ParryModel.C16.Theorems2
 /-!
 # C16 property theorems: ear clipping and Hertel–Mehlhorn, for every linearly ordered field.
 
